@@ -773,11 +773,15 @@ def shaped_call(fn, names, values, shape=None, omit=()):
 # --------------------------------------------------------------------------------------------
 class Interleaver:
     """While a judged call runs, sys.monitoring LINE events are on for the repository's code; at the k-th statement boundary
-    reached inside the library a complete other call (the "twin") is made in the same thread, then the judged call resumes.
-    A thread switch can fall on any such boundary, so whatever the twin disturbs there (a module-level work array, a shared
-    "current frame" object, a report dictionary, a relaxed tolerance) a second thread could disturb as well; made in the same
-    thread the interleaving is deterministic and replayable.  The judged call is judged as always: its result must be right."""
+    reached inside the library a complete other call (the "twin") is made by a second thread while the judged call waits at
+    that boundary; then the judged call resumes.  A thread switch can fall on any such boundary, so this is one of the schedules
+    two threads can produce - chosen instead of waited for, deterministic and replayable.  Whatever the twin disturbs there (a
+    module-level work array, a shared "current frame" object, a report dictionary, a relaxed tolerance) shows in the judged
+    call, which is judged as always: its result must be right.  A twin that needs a lock the judged call holds waits for it.
+    (First built as a same-thread call: a correctly locked cache then dead-locked the harness - a false alarm of the
+    machinery, DESIGN 10.6.)"""
     TOOL = 2
+    WAIT = 0.25          # seconds the judged call waits at the boundary for the twin (a blocked twin finishes later)
 
     def __init__(self, root):
         self.root = os.path.realpath(root) + os.sep
@@ -786,6 +790,8 @@ class Interleaver:
         self.twin = None
         self.state = 'off'
         self.sites = set()
+        self.blocked = 0
+        self.pending = []
 
     def _ours(self, code):
         f = code.co_filename
@@ -801,14 +807,25 @@ class Interleaver:
         if self.n == self.k:
             self.state = 'twin'
             self.sites.add('%s:%d' % (os.path.basename(code.co_filename), line))
-            try:
-                self.twin()
-            except BaseException as e:           # the twin's own outcome is nobody's business here
-                if isinstance(e, (Inconclusive, KeyboardInterrupt)):
-                    raise
-            finally:
-                self.state = 'done'
+            # the twin runs in a thread of its own while this one waits at the boundary: exactly what a second thread scheduled
+            # here would do.  If the judged call holds a lock the twin needs, the twin blocks - as that thread would - and
+            # finishes after the judged call has moved on (a same-thread call would dead-lock on a non-reentrant lock).
+            import threading
+            t = threading.Thread(target=self._run_twin, args=(self.twin,), daemon=True)
+            t.start()
+            t.join(self.WAIT)
+            if t.is_alive():
+                self.blocked += 1
+                self.pending.append(t)
+            self.state = 'done'
         return None
+
+    @staticmethod
+    def _run_twin(twin):
+        try:
+            twin()
+        except BaseException:           # the twin's own outcome is nobody's business here
+            pass
 
     def run(self, k, twin, call):
         """call() with twin() injected at the k-th statement boundary inside the library.  Returns (result, injected)."""
@@ -828,6 +845,9 @@ class Interleaver:
             injected = self.state == 'done'
             self.state = 'off'
             self.twin = None
+            for t in self.pending:
+                t.join(5.0)
+            self.pending = [t for t in self.pending if t.is_alive()]
         return res, injected
 
 
@@ -843,6 +863,8 @@ def interleaved(ctx, k, twin, call):
     res, injected = il.run(k, twin, call)
     ctx.count('interleaved_calls_with_a_twin_call_injected' if injected else 'interleaved_calls_that_ended_before_the_chosen_boundary')
     ctx.info['interleaving_sites_seen'] = sorted(il.sites)[:40]
+    if il.blocked:
+        ctx.info['interleaved_twins_that_waited_for_a_lock_of_the_judged_call'] = il.blocked
     return res
 
 
